@@ -143,6 +143,8 @@ pub fn guarded<T>(f: impl FnOnce() -> T) -> Guarded<T> {
                 Guarded::Hang(b.ticks)
             } else if let Some(b) = p.downcast_ref::<saphyr::verif_hooks::DecodeBudgetExceeded>() {
                 Guarded::Hang(b.ticks)
+            } else if let Some(b) = p.downcast_ref::<saphyr_parser::verif_hooks::WorkBudgetExceeded>() {
+                Guarded::Hang(b.ticks)
             } else if let Some(c) = p.downcast_ref::<ContractViolation>() {
                 Guarded::Panic(format!("input contract: {}", c.0))
             } else if let Some(s) = p.downcast_ref::<String>() {
